@@ -80,6 +80,20 @@ type HasUnion struct {
 	V *UnionK // optional
 }
 
+// map-represented structs whose renames collide with sibling field names (a chain and a swap)
+type Renamed struct {
+	Size int64
+	S    string
+}
+type RenSwap struct {
+	A *int64 // optional
+	B *int64 // optional
+}
+type HasRenames struct {
+	R Renamed
+	W RenSwap
+}
+
 // a kinded union: one member per representation kind, among them structs whose representation kind
 // is not map (listpairs → list, stringjoin → string)
 type LP struct {
@@ -176,6 +190,9 @@ type OMapPtr {String:nullable Inner}
 type OMap struct { M OMapVals  MP OMapPtr }
 type UnionK union { | Int "num" | String "str" | Inner "in" } representation keyed
 type HasUnion struct { U UnionK  V optional UnionK }
+type Renamed struct { size Int (rename "s")  s String (rename "sum") }
+type RenSwap struct { a optional Int (rename "b")  b optional Int (rename "a") }
+type HasRenames struct { R Renamed  W RenSwap }
 type LP struct { A Int  B String } representation listpairs
 type UKind union { | Int int | LP list | KS string | OMapVals map | Bool bool } representation kinded
 type HasKinded struct { U UKind  L [UKind] }
@@ -520,6 +537,20 @@ var Vocabulary = []Entry{
 				l.L = append(l.L, uv(u))
 			}
 			return ref.Map(ref.E("U", uv(x.U)), ref.E("L", l))
+		}},
+	{Name: "HasRenames", New: func() interface{} { return &HasRenames{} },
+		Values: func() []interface{} {
+			return []interface{}{
+				&HasRenames{R: Renamed{1, "x"}},
+				&HasRenames{R: Renamed{2, ""}, W: RenSwap{A: i64p(3)}},
+				&HasRenames{R: Renamed{0, "s"}, W: RenSwap{B: i64p(4)}},
+				&HasRenames{R: Renamed{-1, "sum"}, W: RenSwap{A: i64p(5), B: i64p(6)}},
+			}
+		},
+		View: func(v interface{}) ref.Val {
+			x := v.(*HasRenames)
+			return ref.Map(ref.E("R", ref.Map(ref.E("size", ref.Int(x.R.Size)), ref.E("s", ref.Str(x.R.S)))),
+				ref.E("W", ref.Map(ref.E("a", optI(x.W.A)), ref.E("b", optI(x.W.B)))))
 		}},
 	{Name: "Enums", New: func() interface{} { return &Enums{} },
 		Values: func() []interface{} {
